@@ -210,3 +210,35 @@ def check(chk):
         raise AnalysisError('placeholder matcher self-test failed')
     chk.ok('C27.values', (META, '<selftest>', 0), 'positive control: matcher recognises a raw single-quoted placeholder', nontrivial=False)
 
+
+    # ---- what is quoted as an identifier is the name itself, never text already assembled around it
+    chk.rule('C27.raw', 'protect_name / escape_name / maybe_escape_name receive a name, not a string built by formatting (e.g. keys(<name>))')
+    n_raw = 0
+
+    def _formatted(e):
+        if isinstance(e, ast.JoinedStr):
+            return True
+        if isinstance(e, ast.BinOp) and isinstance(e.op, ast.Mod) and isinstance(e.left, ast.Constant) and isinstance(e.left.value, str):
+            return True
+        if isinstance(e, ast.BinOp) and isinstance(e.op, ast.Add) and any(isinstance(x, ast.Constant) and isinstance(x.value, str) for x in (e.left, e.right)):
+            return True
+        if isinstance(e, ast.Call) and isinstance(e.func, ast.Attribute) and e.func.attr in ('format', 'join') and isinstance(e.func.value, ast.Constant):
+            return True
+        return False
+    for q, f in meta.functions():
+        for c in body_walk(f):
+            if not (isinstance(c, ast.Call) and isinstance(c.func, ast.Name) and c.func.id in ('protect_name', 'escape_name', 'maybe_escape_name') and len(c.args) == 1):
+                continue
+            n_raw += 1
+            a = c.args[0]
+            exprs = [a]
+            if isinstance(a, ast.Name):
+                exprs += [x.value for x in body_walk(f) if isinstance(x, ast.Assign) and any(isinstance(t, ast.Name) and t.id == a.id for t in x.targets)]
+            bad = [src(e) for e in exprs if _formatted(e)]
+            if bad:
+                chk.viol('C27.raw', c, '%s: %s' % (q, src(c)), 'the quoted text is assembled first (%s) and quoted as a whole: the generated CQL names one identifier '
+                         '"keys(col)" / "full(col)" instead of the column inside the function' % bad[0])
+            else:
+                chk.ok('C27.raw', c, '%s: %s' % (q, src(c)), nontrivial=False)
+    if n_raw < 40:
+        raise AnalysisError('C27.raw: only %d identifier-quoting call sites found in metadata.py' % n_raw)
